@@ -5,8 +5,26 @@
 (* and the declarative view as well.                                                        *)
 EXTENDS VersionGraph, Json, IOUtils, SequencesExt
 
+PR == INSTANCE Propagate
+
 Rec == ndJsonDeserialize(IOEnv.TRACE)
 VARIABLES l, rej
+
+(* a recorded walk of a change through the graph (src/insert_mappings.rs propagate_change): the world of the record *)
+EdgeSet(w) == {<<w.edges[i][1], w.edges[i][2]>> : i \in DOMAIN w.edges}
+WorldOf(w) ==
+    [n |-> w.n, root |-> 1, edges |-> EdgeSet(w), depth |-> [x \in 1..w.n |-> PR!DepthIn(w.n, EdgeSet(w), 1, x)],
+     diff |-> [e \in EdgeSet(w) |-> w.diffs[CHOOSE i \in DOMAIN w.edges : <<w.edges[i][1], w.edges[i][2]>> = e]],
+     rootmap |-> w.root, version |-> w.version, barriers |-> {w.barriers[i] : i \in DOMAIN w.barriers},
+     level |-> w.level, mode |-> w.mode, change |-> w.change]
+CallOf(c) == PR!Call(c.kind, c.p, c.c, c.side, c.insert, c.res)
+AcceptWalk(r) ==
+    LET w == WorldOf(r.W)
+        log == [i \in DOMAIN r.got.calls |-> CallOf(r.got.calls[i])]
+    IN /\ \A x \in 1..w.n : r.got.depth[x] = w.depth[x]
+       /\ PR!AcceptRun(w, log, {r.got.dirty[i] : i \in DOMAIN r.got.dirty})
+ExpectedWalk(r) ==
+    LET w == WorldOf(r.W) IN [dirty |-> SetToSortSeq(PR!Closure(w).dirty, <), ncalls |-> Cardinality(PR!ExpectedCalls(w))]
 
 RECURSIVE NormDKids(_)
 NormDKids(dk) == [k \in DOMAIN dk |-> [dk[k] EXCEPT !.kids = NormDKids(dk[k].kids)]]
@@ -21,11 +39,13 @@ NodeOf(s, v) == CHOOSE i \in 1..Len(s.nodes) : s.nodes[i] = v
 VNodes(s) == {s.nodes[i] : i \in 1..Len(s.nodes)}
 
 Expected(r) ==
+    IF r.op = "walk" THEN ExpectedWalk(r) ELSE
     LET s == Resolve(r.got.listing)
     IN IF ~s.ok THEN [resolve |-> FALSE, why |-> s.err]
        ELSE [resolve |-> TRUE, apply |-> [v \in VNodes(s) |-> SetToSeq(Answers(s, ContentOf(r), NodeOf(s, v)))]]
 
 Accept(r) ==
+    IF r.op = "walk" THEN AcceptWalk(r) ELSE
     LET g == r.got
         files == {r.files[i].name : i \in 1..Len(r.files)}
         s == Resolve(g.listing)
